@@ -1031,10 +1031,10 @@ class QuantityMeta(ClassWithDefinitionMeta):
             "given."
         assert quantum is None or ref_unit_symbol, \
             "A quantum can only be defined together with a reference unit."
-        # default unit class
-        try:
-            clsdict['_unit_cls']
-        except KeyError:
+        # default unit class (a sub-class of a class with a special unit
+        # class, like Money, inherits that one)
+        if '_unit_cls' not in clsdict and \
+                not any(hasattr(base, '_unit_cls') for base in bases):
             clsdict['_unit_cls'] = Unit
         # prevent __dict__ from being built for subclasses of Quantity
         try:
